@@ -358,6 +358,64 @@ func runC11(c *Ctx) {
 		}
 		c.Check(ok, "C11-R5", "GetPrometheusDetails:result sorted after map iteration", gp.Decl.Pos(), "sorted", "the list collected from the promDetails map is returned unsorted")
 	}
+	c11NestedDetailsSorted(c, "C11-R5")
+}
+
+// c11NestedDetailsSorted: the two lists nested in the Prometheus details are
+// filled in map-iteration order (`for api, names := range GetDisabledChecks()`
+// in checkRules) and in the order the workers hit unsupported APIs, so they are
+// sorted before anybody reads them: the per-server DisabledChecks list and the
+// Checks list of each entry are each the first argument of a sort call in
+// Summary.GetPrometheusDetails or Summary.MarkCheckDisabled. The comment that
+// lists disabled checks is built from them; text that changes from run to run
+// is posted again on every run.
+func c11NestedDetailsSorted(c *Ctx, R string) {
+	n := map[string]int{}
+	var anchor token.Pos
+	for _, name := range []string{"internal/reporter.Summary.GetPrometheusDetails", "internal/reporter.Summary.MarkCheckDisabled"} {
+		fi := c.MustFunc(R, name)
+		if fi == nil {
+			continue
+		}
+		if anchor == token.NoPos {
+			anchor = fi.Decl.Pos()
+		}
+		info := fi.Pkg.TypesInfo
+		// parameters stored into DisabledChecks.Checks stand for that field
+		alias := map[types.Object]bool{}
+		ast.Inspect(fi.Decl.Body, func(nd ast.Node) bool {
+			if cl, ok := nd.(*ast.CompositeLit); ok && strings.HasSuffix(typeQName(info.TypeOf(cl)), "reporter.DisabledChecks") {
+				if v := litField(cl, "Checks"); v != nil {
+					if o := objOf(info, v); o != nil {
+						alias[o] = true
+					}
+				}
+			}
+			return true
+		})
+		ast.Inspect(fi.Decl.Body, func(nd ast.Node) bool {
+			call, ok := nd.(*ast.CallExpr)
+			if !ok || len(call.Args) == 0 {
+				return true
+			}
+			fn := Callee(info, call)
+			if fn == nil || fn.Pkg() == nil || (fn.Pkg().Path() != "slices" && fn.Pkg().Path() != "sort") || !(strings.HasPrefix(fn.Name(), "Sort") || fn.Name() == "Strings" || fn.Name() == "Stable" || fn.Name() == "Slice" || fn.Name() == "SliceStable") {
+				return true
+			}
+			a := call.Args[0]
+			switch {
+			case fieldSel(info, a, "internal/reporter.PrometheusDetails", "DisabledChecks"):
+				n["DisabledChecks"]++
+			case fieldSel(info, a, "internal/reporter.DisabledChecks", "Checks"), alias[objOf(info, a)]:
+				n["Checks"]++
+			}
+			return true
+		})
+	}
+	for _, f := range []string{"DisabledChecks", "Checks"} {
+		c.Check(n[f] >= 1, R, "Prometheus details: the "+f+" list is sorted before it is read", anchor, itoa(n[f])+" sort call(s)",
+			"nothing sorts the "+f+" list of the Prometheus details: it is filled in map-iteration / worker order, so the `checks were disabled` log lines and the comment built from them change from run to run (and a comment whose text changed is posted again)")
+	}
 }
 
 // c11Globals: functions reachable from the workers must not store to
